@@ -94,7 +94,7 @@ class ObservableEvaluator(CallbackBase):
     """
 
     def __init__(self, period, observables, verbose=False, log=None, **sampling_kwargs):
-        self.period = period
+        self.period = int(period)
         self.past_values = []
         self.system = System(*observables)
         self.sampling_kwargs = sampling_kwargs
